@@ -267,11 +267,12 @@ where
     }
 
     async fn try_run_fsync_task(&mut self) -> bool {
-        if self.fsync_task.as_ref().map_or(false, |task| !task.is_finished()) {
-            // Task is in progress. Avoid starting second one
+        if self.fsync_task.as_ref().map_or(false, |task| !task.is_finished()) && self.inner.fsync_in_progress() {
+            // Task is in progress and looks at the dirty bytes again when its sync is done. Avoid starting second one
             return false;
         }
 
+        // A task that is still running here has had its last look at the dirty bytes (or none yet): it is replaced
         complete_task(&mut self.fsync_task, "fsync_task").await;
 
 
